@@ -30,6 +30,16 @@ func loadOfField(v ssa.Value, name string) bool {
 	return ok && world.FieldName(fa) == name
 }
 
+// loadOfStringField: v is a load of a string-typed struct field (the configured sync strategy is
+// recognised by its comparison with "always", not by the field's name).
+func loadOfStringField(v ssa.Value) bool {
+	if _, ok := loadOfAnyField(v); !ok {
+		return false
+	}
+	b, ok := v.Type().Underlying().(*types.Basic)
+	return ok && b.Kind() == types.String
+}
+
 // loadOfFieldType: v is a load of a struct field whose type is the named type.
 func loadOfAnyField(v ssa.Value) (string, bool) {
 	u, ok := v.(*ssa.UnOp)
@@ -49,6 +59,21 @@ func invokeName(c ssa.CallInstruction) string {
 		return c.Common().Method.Name()
 	}
 	return ""
+}
+
+// onStoreHandle: the interface method is invoked on a value loaded from a field of the method's
+// receiver (the store's file handle), not on some other writer.
+func onStoreHandle(call *ssa.Call) bool {
+	u, ok := call.Call.Value.(*ssa.UnOp)
+	if !ok || u.Op != token.MUL {
+		return false
+	}
+	fa, ok := u.X.(*ssa.FieldAddr)
+	if !ok {
+		return false
+	}
+	fn := call.Parent()
+	return fn != nil && len(fn.Params) > 0 && fa.X == ssa.Value(fn.Params[0])
 }
 
 // mustCallSummary: does fn call (on every path to a nil-error return) something accepted by pred?
@@ -130,6 +155,22 @@ func ruleD3(w *world.World, r *report.RuleResult) {
 		r.Err = fmt.Errorf("%s: cannot identify the database and command parameters", fname)
 		return
 	}
+	// the store's record of the database the log is currently in: the int field the writer compares
+	// its database parameter with
+	dbField := ""
+	for _, b := range wr.Blocks {
+		for _, in := range b.Instrs {
+			if bo, ok := in.(*ssa.BinOp); ok && (bo.Op == token.EQL || bo.Op == token.NEQ) {
+				for _, pr := range [][2]ssa.Value{{bo.X, bo.Y}, {bo.Y, bo.X}} {
+					if pr[0] == ssa.Value(dbParam) {
+						if n, ok := loadOfAnyField(pr[1]); ok {
+							dbField = n
+						}
+					}
+				}
+			}
+		}
+	}
 	isSync := func(c ssa.CallInstruction) bool { return invokeName(c) == "Sync" }
 	var payload *ssa.Call
 	var markerWrites, syncCalls []*ssa.Call
@@ -138,7 +179,7 @@ func ruleD3(w *world.World, r *report.RuleResult) {
 		if !ok {
 			continue
 		}
-		if invokeName(call) == "Write" {
+		if invokeName(call) == "Write" && onStoreHandle(call) {
 			if len(call.Call.Args) == 1 && call.Call.Args[0] == ssa.Value(cmdParam) {
 				payload = call
 			} else {
@@ -175,16 +216,16 @@ func ruleD3(w *world.World, r *report.RuleResult) {
 			sa, oka := world.ConstString(a)
 			sb, okb := world.ConstString(b)
 			switch {
-			case okb && strings.EqualFold(sb, "always") && loadOfField(a, "strategy"):
+			case okb && strings.EqualFold(sb, "always") && loadOfStringField(a):
 				return neg, true
-			case oka && strings.EqualFold(sa, "always") && loadOfField(b, "strategy"):
+			case oka && strings.EqualFold(sa, "always") && loadOfStringField(b):
 				return neg, true
 			}
 		case *ssa.BinOp:
 			if c.Op == token.EQL || c.Op == token.NEQ {
 				sx, okx := world.ConstString(c.X)
 				sy, oky := world.ConstString(c.Y)
-				if (oky && sy == "always" && loadOfField(c.X, "strategy")) || (okx && sx == "always" && loadOfField(c.Y, "strategy")) {
+				if (oky && sy == "always" && loadOfStringField(c.X)) || (okx && sx == "always" && loadOfStringField(c.Y)) {
 					return neg != (c.Op == token.NEQ), true
 				}
 			}
@@ -196,7 +237,7 @@ func ruleD3(w *world.World, r *report.RuleResult) {
 		if !isB || (b.Op != token.EQL && b.Op != token.NEQ) {
 			return false, false
 		}
-		if (b.X == ssa.Value(dbParam) && loadOfField(b.Y, "currentDatabase")) || (b.Y == ssa.Value(dbParam) && loadOfField(b.X, "currentDatabase")) {
+		if (b.X == ssa.Value(dbParam) && loadOfField(b.Y, dbField)) || (b.Y == ssa.Value(dbParam) && loadOfField(b.X, dbField)) {
 			return b.Op == token.NEQ, true
 		}
 		return false, false
@@ -271,7 +312,7 @@ func ruleD3(w *world.World, r *report.RuleResult) {
 	for _, b := range wr.Blocks {
 		for _, ins := range b.Instrs {
 			if st, ok := ins.(*ssa.Store); ok {
-				if fa, ok := st.Addr.(*ssa.FieldAddr); ok && world.FieldName(fa) == "currentDatabase" && st.Val == ssa.Value(dbParam) {
+				if fa, ok := st.Addr.(*ssa.FieldAddr); ok && world.FieldName(fa) == dbField && st.Val == ssa.Value(dbParam) {
 					okStore = true
 				}
 			}
@@ -281,6 +322,66 @@ func ruleD3(w *world.World, r *report.RuleResult) {
 		r.OK(fname+"|current-database-updated", w.Pos(wr.Pos()), "currentDatabase is set to the database parameter after the marker")
 	} else {
 		r.Fail(fname+"|current-database-updated", w.Pos(wr.Pos()), "the writer never records the database it switched to: every later command re-emits or omits the SELECT marker wrongly")
+	}
+	// The writer omits the marker while the database equals the recorded one, so the record must
+	// describe the file: any other method of the log store that empties the file (Truncate on the
+	// handle) must, before it reports success, either write a marker for the recorded database at the
+	// top of the new file or reset the record to a value no request can have.
+	for _, fn := range w.ModFns {
+		if fn == wr || world.PkgOf(fn) != world.PkgOf(wr) || fn.Signature.Recv() == nil || fn.Signature.Recv().Type().String() != wr.Signature.Recv().Type().String() {
+			continue
+		}
+		var trunc *ssa.Call
+		for _, c := range world.Calls(fn) {
+			if call, ok := c.(*ssa.Call); ok && invokeName(call) == "Truncate" {
+				trunc = call
+			}
+		}
+		if trunc == nil {
+			continue
+		}
+		const REC world.Facts = 1
+		isHeader := func(call *ssa.Call) bool {
+			if invokeName(call) != "Write" || len(call.Call.Args) != 1 || !onStoreHandle(call) {
+				return false
+			}
+			return derivesFrom(call.Call.Args[0], func(v ssa.Value) bool { return loadOfField(v, dbField) }, 0)
+		}
+		eg := func(b *ssa.BasicBlock, si int) world.Facts {
+			for _, in := range b.Instrs {
+				if call, ok := in.(*ssa.Call); ok && isHeader(call) {
+					if world.ErrNilEdge(b, func(v ssa.Value) bool { return v == ssa.Value(call) }) == si {
+						return REC
+					}
+				}
+			}
+			return 0
+		}
+		gen := func(in ssa.Instruction) world.Facts {
+			if st, ok := in.(*ssa.Store); ok {
+				if fa, ok := st.Addr.(*ssa.FieldAddr); ok && world.FieldName(fa) == dbField {
+					if v, ok := world.ConstInt(st.Val); ok && v < 0 {
+						return REC
+					}
+				}
+			}
+			return 0
+		}
+		must := world.Must(fn, eg, gen, nil)
+		n := 0
+		for _, ret := range world.Returns(fn) {
+			rv := world.RetVals(ret)
+			if len(rv) != 1 || !world.IsNilConst(rv[0]) || !world.Dominates(trunc, ret) {
+				continue
+			}
+			n++
+			key := fmt.Sprintf("%s|truncate-keeps-database-record#%d", world.FuncName(fn), n)
+			if world.FactsAt(must, ret, gen, nil)&REC != 0 {
+				r.OK(key, w.InstrPos(ret), "after emptying the log the recorded database is re-logged as a SELECT marker (or the record is reset) before success is reported")
+			} else {
+				r.Fail(key, w.InstrPos(ret), fmt.Sprintf("%s empties the log file and reports success without writing a SELECT marker for the recorded database (%s) or resetting the record: the writer goes on omitting the marker while requests stay in that database, and replay (which starts in database 0) applies every command logged after the rewrite to the wrong database", world.FuncName(fn), dbField))
+			}
+		}
 	}
 }
 
